@@ -16,6 +16,8 @@ type Cfg struct {
 	ConCap  int    `json:"con_cap"`            // same for the contact value array
 	ParCap  int    `json:"par_cap"`            // URI parameter / URI header array length
 	HType   int    `json:"htype,omitempty"`    // nameaddr: header kind passed to ParseNameAddrPVal
+	FlagsLate uint `json:"flags_late,omitempty"` // msg: from call number LateFrom on (counted per message) these flags are passed instead of Flags
+	LateFrom  int  `json:"late_from,omitempty"`  // 0 = the flags never change between the calls of one message
 	HBMask  uint8  `json:"hb_mask,omitempty"`  // hdrline/headers: a caller's own PHBodies whose getters return nil for these kinds (bit order: From To Call-ID CSeq Content-Length Contacts Expires PAIs)
 	NoHB    bool   `json:"no_hb,omitempty"`    // hdrline/headers: pass a nil PHBodies (generic value parsing only)
 }
@@ -245,6 +247,8 @@ type MsgD struct {
 	hdrs     []sipsp.Hdr
 	contacts []sipsp.PFromBody
 	pool     arrayPool
+	callNo   int  // calls made for the current message
+	lastF    uint // flags (without the end-of-input bit) passed by the last call
 }
 
 func newMsg(c Cfg) *MsgD {
@@ -262,7 +266,13 @@ func newMsg(c Cfg) *MsgD {
 }
 
 func (d *MsgD) flags(eof bool) uint8 {
-	f := uint8(d.cfg.Flags) & (sipsp.SIPMsgSkipBodyF | sipsp.SIPMsgCLenReqF)
+	cf := d.cfg.Flags
+	if d.cfg.LateFrom > 0 && d.callNo >= d.cfg.LateFrom {
+		cf = d.cfg.FlagsLate
+	}
+	d.lastF = cf
+	d.callNo++
+	f := uint8(cf) & (sipsp.SIPMsgSkipBodyF | sipsp.SIPMsgCLenReqF)
 	if eof && d.cfg.EOFFlag {
 		f |= sipsp.SIPMsgNoMoreDataF
 	}
@@ -275,7 +285,18 @@ func (d *MsgD) Call(buf []byte, offs int, eof bool) (int, sipsp.ErrorHdr) {
 
 func (d *MsgD) Snap(r *Rec, buf []byte) { SnapMsg(r, &d.M, buf) }
 
+// CallCfg is the configuration a brand-new object needs in order to make, as its first call, the
+// call this object made last (same flags).
+func (d *MsgD) CallCfg() Cfg {
+	c := d.cfg
+	if c.LateFrom > 0 {
+		c.Flags, c.LateFrom, c.FlagsLate = d.lastF, 0, 0
+	}
+	return c
+}
+
 func (d *MsgD) Reset(how int) {
+	d.callNo = 0
 	if how == ByInit && d.cfg.HdrCap != -2 {
 		d.M.Init(nil, d.hdrs, d.contacts)
 	} else {
@@ -819,6 +840,7 @@ func (p *arrayPool) give(h []sipsp.Hdr, v []sipsp.PFromBody) {
 }
 
 func (d *MsgD) Reinit(c Cfg) {
+	d.callNo = 0
 	if c.HdrCap == -2 || d.cfg.HdrCap == -2 {
 		d.M.Reset()
 		return
